@@ -116,7 +116,7 @@ func qaC25guard(c *Ctx, fnName, sp, hf, recv string) {
 			if !isCall || f.Atom.Kind != TRUE || CalleeName(&call.Call) != sp {
 				continue
 			}
-			if Term(call.Call.Args[0]) == Term(rc.Call.Args[0]) && Term(call.Call.Args[1]) == Term(rc.Call.Args[3]) {
+			if Term(BaselineArgs(&call.Call)[0]) == Term(BaselineArgs(&rc.Call)[0]) && Term(BaselineArgs(&call.Call)[1]) == Term(BaselineArgs(&rc.Call)[3]) {
 				ok = true
 			}
 		}
@@ -177,7 +177,7 @@ func qaC25ackNumbers(c *Ctx, wa string) {
 	}
 	got := map[string]bool{}
 	for _, in := range Calls("internal/quic/quicwire.AppendVarint").F(c.P, fn) {
-		l := qaPhiName.ReplaceAllString(Linearize(in.(*ssa.Call).Call.Args[1]).String(), "φ")
+		l := qaPhiName.ReplaceAllString(Linearize(BaselineArgs(&in.(*ssa.Call).Call)[1]).String(), "φ")
 		if _, ok := want[l]; !ok {
 			c.Fail("codec-values", construct, in.Pos(), "writes `"+l+"`, which is none of the ACK frame fields derived from the acknowledged set")
 			return
@@ -250,7 +250,7 @@ func qaC25callbackRange(c *Ctx, fnName string) {
 		return
 	}
 	for _, in := range calls {
-		args := in.(*ssa.Call).Call.Args
+		args := BaselineArgs(&in.(*ssa.Call).Call)
 		start, end := Linearize(args[1]), Linearize(args[2])
 		zero := Lin{Coef: map[string]int64{}}
 		nonneg := Atom{Kind: LE, L: QaLinSub(zero, start, 0)} // -start <= 0
